@@ -97,9 +97,18 @@ func (fs DirFs) ReadAt(f File, offset uint64, length uint64) []byte {
 		length = size - offset
 	}
 	p := make([]byte, length)
-	n, err := unix.Pread(f.fd(), p, int64(offset))
-	if err != nil {
-		panic(err)
+	// One pread may transfer less than it was asked for (Linux moves at most
+	// 0x7ffff000 bytes per call) without that being the end of the file.
+	n := uint64(0)
+	for n < length {
+		m, err := unix.Pread(f.fd(), p[n:], int64(offset+n))
+		if err != nil {
+			panic(err)
+		}
+		if m == 0 {
+			break // end of file
+		}
+		n += uint64(m)
 	}
 	return p[:n]
 }
